@@ -85,7 +85,8 @@ int main(int argc, char** argv) {
   for (uint64_t s = sd::g_args.seed0; s < sd::g_args.seed0 + sd::g_args.n; s++) {
     Rng r(s);
     int nmesh = 0, ntex = 0, nmuscle = 0;
-    std::string xml = ag::gen_xml(r, &nmesh, &ntex, &nmuscle, nd::g_args.mdrop, true);
+    bool fuse = false;
+    std::string xml = ag::gen_xml(r, &nmesh, &ntex, &nmuscle, nd::g_args.mdrop, true, &fuse);
     sd::Rng r2(s ^ 0x5DEECE66DULL);
     vsim::Config cfg = sd::swarm(r2, {0, 0, 100, 1000}, {}, est_len);
     cfg.opp_cap = 2000000000ULL;
@@ -127,6 +128,8 @@ int main(int argc, char** argv) {
       if (m) sd::violation("fault-swallowed", "allocation %ld failed (on thread %ld) but mj_compile returned a model", k, g_fail_tid);
       if (!mjs_getError(sp) || !mjs_getError(sp)[0]) sd::violation("no-error-message", "mj_compile returned NULL after a failed allocation without an error message");
       // recovery: the same spec compiles fault-free, in the same process, to the baseline bytes
+      // (with fusestatic a compile leaves the spec changed - C33's recorded finding - so there the recovery compile parses the XML again)
+      if (fuse) { mj_deleteSpec(sp); sp = mj_parseXMLString(xml.c_str(), nullptr, err, sizeof err); sp->compiler.usethread = 1; sd::probe("recovery_from_reparsed_spec_(fusestatic)"); }
       mjModel* m2 = mj_compile(sp, nullptr);
       if (!m2) sd::violation("no-recovery", "after a failed allocation (call %ld, thread %ld) the spec no longer compiles: %s", k, g_fail_tid, mjs_getError(sp));
       std::vector<char> b2 = model_bytes(m2);
